@@ -54,7 +54,7 @@ def opPrec (j : Json) : Except String Json := do
   let c := combine true e
   let i := invert true e
   pure <| jobj [("wp", jarr ((List.range 11).map fun m => jbool (WP m e))), ("render", jstr (render e)),
-                ("rhs_ok", jbool (WPrhs e)), ("combine", encE c), ("combine_wp0", jbool (WP 0 c)), ("combine_old", encE (combine false e)),
+                ("rhs_ok", jbool (WPrhs e)), ("and_folds", jbool (andFolds e)), ("combine", encE c), ("combine_wp0", jbool (WP 0 c)), ("combine_old", encE (combine false e)),
                 ("invert", encE i), ("invert_wp0", jbool (WP 0 i)), ("invert_old", encE (invert false e)), ("invert_raises", jbool (invertRaises e))]
 
 /-- `prec_walrus`: the new `if` test for `n = value` followed by a test of one of the three shapes -/
